@@ -59,10 +59,9 @@ inductive DState where
   | dialed
   /-- `identityReq` written, `identityResp` not yet read -/
   | awaitId
-  /-- identity verified, no request outstanding (checked out by a caller, or sitting in the pool) -/
-  | idle
-  /-- a request is written, its response not yet read -/
-  | awaitResp (k : Kind)
+  /-- identity verified (checked out by a caller, or sitting in the pool); `pending` requests are written
+  whose responses are not yet read (replication.go pipelines append requests) -/
+  | verified (pending : Nat)
   | closed
 deriving DecidableEq, Repr
 
@@ -155,7 +154,7 @@ def recvIdentity (c : Conn) : Conn :=
   if c.lib = true ∧ c.dstate = .awaitId then
     match c.outbox with
     | r :: rest =>
-      if r = Resp.idOk then { c with dstate := .idle, outbox := rest }
+      if r = Resp.idOk then { c with dstate := .verified 0, outbox := rest }
       else { c with dstate := .closed, outbox := rest }
     | [] => if c.lopen = true then c else { c with dstate := .closed }
   else c
@@ -166,28 +165,35 @@ def pop (c : Conn) : Conn :=
 
 /-- `c.writeReq(req)` on a checked-out, verified connection -/
 def sendReq (c : Conn) (k : Kind) : Conn :=
-  if c.lib = true ∧ c.dstate = .idle ∧ c.pooled = false then
-    { c with dstate := .awaitResp k,
-             inbox := c.inbox ++ [Msg.req k c.src.nid],
-             wrote := c.wrote ++ [Msg.req k c.src.nid] }
-  else c
+  match c.dstate with
+  | .verified n =>
+    if c.lib = true ∧ c.pooled = false then
+      { c with dstate := .verified (n + 1),
+               inbox := c.inbox ++ [Msg.req k c.src.nid],
+               wrote := c.wrote ++ [Msg.req k c.src.nid] }
+    else c
+  | _ => c
 
-/-- `c.readResp(resp)`; an error (peer closed) closes the connection (`connPool.doRPC`) -/
+/-- `c.readResp(resp)` by whoever holds the connection; an error (peer closed) closes it (`connPool.doRPC`,
+`replication.runLoop`) -/
 def recvResp (c : Conn) : Conn :=
-  if c.lib = true then
+  if c.lib = true ∧ c.pooled = false then
     match c.dstate with
-    | .awaitResp _ =>
+    | .verified (n + 1) =>
       match c.outbox with
-      | _ :: rest => { c with dstate := .idle, outbox := rest }
+      | _ :: rest => { c with dstate := .verified n, outbox := rest }
       | [] => if c.lopen = true then c else { c with dstate := .closed }
     | _ => c
   else c
 
 /-- `returnConn`: `room` says `len(pool.conns) < pool.max` -/
 def returnConn (c : Conn) (room : Bool) (now : Nat) : Conn :=
-  if c.lib = true ∧ c.dstate = .idle ∧ c.pooled = false then
-    if room = true then { c with pooled := true, stamp := now } else { c with dstate := .closed }
-  else c
+  match c.dstate with
+  | .verified _ =>
+    if c.lib = true ∧ c.pooled = false then
+      if room = true then { c with pooled := true, stamp := now } else { c with dstate := .closed }
+    else c
+  | _ => c
 
 /-- the dialer closes its end (error paths, deadline, `closeAll`) -/
 def dialerClose (c : Conn) : Conn := { c with dstate := .closed, pooled := false }
@@ -333,7 +339,7 @@ def World.rawDial (w : World) (a : Addr) : World :=
     | some p =>
       { w with conns := w.conns ++
           [{ lib := false, dialer := 0, src := ⟨0, 0⟩, intended := ⟨0, 0⟩,
-             lpid := pid, lident := p.ident, dstate := .idle }] }
+             lpid := pid, lident := p.ident, dstate := .verified 0 }] }
 
 def World.listenerRead (w : World) (i : Nat) : World :=
   match w.conns[i]? with
@@ -419,7 +425,7 @@ def getConn (w : World) (d dest : Nat) : GetResult :=
   | some c => { world := w', conn := some c, err := .ok }
   | none =>
     if w'.conns.length = w.conns.length then { world := w', conn := none, err := .dialErr }
-    else if dstateOf w' w.conns.length = .idle then { world := w', conn := some w.conns.length, err := .ok }
+    else if dstateOf w' w.conns.length = .verified 0 then { world := w', conn := some w.conns.length, err := .ok }
     else { world := w', conn := none, err := .identityErr }
 
 /-- events of `c.doRPC(req, resp)` + the `Close` on error of `connPool.doRPC` -/
@@ -430,10 +436,16 @@ structure OpResult where
   world : World
   err : Err
 
+/-- the caller holds connection `c` (got it from `getConn`, has not returned it) -/
+def isHeld (w : World) (i : Nat) : Bool :=
+  match w.conns[i]? with
+  | some c => decide (c.lib = true ∧ c.dstate = .verified 0 ∧ c.pooled = false)
+  | none => false
+
 def useConn (w : World) (c : Nat) (k : Kind) : OpResult :=
-  if dstateOf w c = .idle then
+  if isHeld w c = true then
     let w' := run w (useEvs c k)
-    { world := w', err := if dstateOf w' c = .idle then .ok else .ioErr }
+    { world := w', err := if dstateOf w' c = .verified 0 then .ok else .ioErr }
   else { world := w, err := .noConn }
 
 def putEvs (c : Nat) : List Ev := [.returnConn c, .listenerEOF c]
